@@ -71,7 +71,7 @@ constexpr bool conv_ok(int s, int t)
     (s == N_CSCR_D64 && (t == N_CSCR_D64 || t == N_CSCR_F32 || t == N_CSR_D64)) ||
     (s == N_CSCR_F32 && (t == N_CSCR_D64 || t == N_CSCR_F32 || t == N_CSR_F32)) ||
     ((s == N_DENSE_D64 || s == N_DENSE_F32) && (t == N_DENSE_D64 || t == N_DENSE_F32)) ||
-    (s == N_B23_D64 && (t == N_B23_D64 || t == N_B23_F32 || t == N_CSR_D64 || t == N_CSR_F32)) ||
+    (s == N_B23_D64 && (t == N_B23_D64 || t == N_B23_F32 || t == N_CSR_D64 || t == N_CSR_F32 || t == N_CSCR_D64)) ||
     (s == N_B23_F32 && (t == N_B23_D64 || t == N_B23_F32 || t == N_CSR_F32)) ||
     (s == N_B32_D64 && (t == N_B32_D64 || t == N_CSR_D64));
 }
@@ -434,7 +434,7 @@ static void ops_for(const Model& M, std::vector<Op>& out, verif::Ctx& c, bool co
   for(int t = 0; t < N_NODES; ++t)
   {
     if(!conv_ok(s, t)) continue;
-    if(node_fmt[s] != node_fmt[t] && nnz == 0 && node_fmt[s] != F_BCSR)
+    if(node_fmt[s] != node_fmt[t] && nnz == 0 && (node_fmt[s] != F_BCSR || node_fmt[t] != F_CSR))
     {
       // Banded::convert(CSR) and the generic convert(MT_) assert used_elements() > 0
       if(count_excl) c.excluded("cross-format convert of an entry-free matrix (asserted precondition)");
@@ -988,12 +988,22 @@ struct Search
       // change one value of the result (if it does not share its data with the source) and compare again
       auto& e = y.mat._elements;
       if(e.empty() || y.mat._elements_size[0] == 0 || e[0] == x.mat._elements[0]) return;
-      Index pos = 0;
-      if constexpr(NodeT<nx>::fmt == F_BAND) { const Raw ry = raw_of(Y); const Index m = ry.si[1], n = ry.si[2]; bool found = false; for(size_t b = 0; b < ry.ix[0].size() && !found; ++b) for(Index i = 0; i < m && !found; ++i) if(band_valid(m, n, ry.ix[0][b], i)) { pos = Index(b) * m + i; found = true; } if(!found) return; }
-      const auto old = e[0][pos];
-      e[0][pos] = (old == typename std::remove_const<decltype(old)>::type(0)) ? typename std::remove_const<decltype(old)>::type(1) : -old;   // a value that certainly compares different
-      const bool eq2 = (y.mat == x.mat);
-      e[0][pos] = old;
+      std::vector<Index> probes;
+      if constexpr(NodeT<nx>::fmt == F_BAND)
+      {
+        const Raw ry = raw_of(Y); const Index m = ry.si[1], n = ry.si[2];
+        for(size_t b = 0; b < ry.ix[0].size(); ++b) for(Index i = 0; i < m; ++i) if(band_valid(m, n, ry.ix[0][b], i)) probes.push_back(Index(b) * m + i);
+        if(probes.size() > 2) { const Index f = probes.front(), l = probes.back(); probes = {f, l}; }
+      }
+      else { probes.push_back(0); if(y.mat._elements_size[0] > 1) probes.push_back(y.mat._elements_size[0] - 1); }
+      bool eq2 = false;
+      for(Index pos : probes)
+      {
+        const auto old = e[0][pos];
+        e[0][pos] = (old == typename std::remove_const<decltype(old)>::type(0)) ? typename std::remove_const<decltype(old)>::type(1) : -old;   // a value that certainly compares different
+        if(y.mat == x.mat) eq2 = true;
+        e[0][pos] = old;
+      }
       if(eq2) { fail_once(opn + ": operator== still true after a stored value was changed", ""); ok = false; }
     });
     c.count("operator_eq_observations");
@@ -1228,6 +1238,30 @@ struct Search
         c.count("transitions"); c.count("relative_scenarios"); c.count("convert_reverse_checks");
         const Raw rt = raw_of(*T);
         const std::string opn = std::string("convert_reverse ") + node_name[ns] + " into a Layout clone";
+        check_state(*T, rt, M, opn, M, true);
+        if(okey(*X) != kx) fail_once(opn + ": source matrix modified", "");
+      }
+    }
+    if(ns == N_B23_D64 || ns == N_B32_D64)
+    {
+      // CSR made from the BCSR matrix writes its values back into a BCSR matrix of the same layout (BCSR::set_line_reverse)
+      Model Mt; ObjP X = replay(hist, Mt);
+      ObjP T = make_relative(*X, R_LAYOUT);
+      if(T)
+      {
+        write_values(*T, [](Index i) { return 500.0 + double(i); });
+        visit(*X, [&](auto& x, auto NX)
+        {
+          constexpr int nx = decltype(NX)::value;
+          if constexpr(nx == N_B23_D64 || nx == N_B32_D64)
+          {
+            SparseMatrixCSR<double, u64> csr; csr.convert(x.mat);
+            csr.convert_reverse(static_cast<ObjT<nx>&>(*T).mat);
+          }
+        });
+        c.count("transitions"); c.count("relative_scenarios"); c.count("convert_reverse_checks");
+        const Raw rt = raw_of(*T);
+        const std::string opn = std::string("CSR(x).convert_reverse into a Layout clone of ") + node_name[ns];
         check_state(*T, rt, M, opn, M, true);
         if(okey(*X) != kx) fail_once(opn + ": source matrix modified", "");
       }
@@ -1605,19 +1639,20 @@ struct Search
             Op o2{O_PERM, perm_index(np, inverse_of(perms(np)[size_t(o.a)])), perm_index(nq, inverse_of(perms(nq)[size_t(o.b)]))};
             const std::string ky = key_of(actual(ry, Y->node), Y->node);
             {
-              // Permutation::concat: a permutation composed with its (harness-computed) inverse is the identity, both ways
+              // Permutation::concat against the composition computed in the harness: (P1.concat(P2))[i] = p2[p1[i]]
               for(int side = 0; side < 2; ++side)
               {
                 const Index k = side ? nq : np;
-                const std::vector<Index>& pv = perms(k)[size_t(side ? o.b : o.a)];
-                const std::vector<Index> iv = inverse_of(pv);
-                Adjacency::Permutation P1(k, Adjacency::Permutation::ConstrType::perm, pv.data()), P2(k, Adjacency::Permutation::ConstrType::perm, iv.data());
+                const size_t ia = size_t(side ? o.b : o.a), ib = (ia + 1) % perms(k).size();
+                const std::vector<Index>& pa = perms(k)[ia]; const std::vector<Index>& pb = perms(k)[ib];
+                Adjacency::Permutation P1(k, Adjacency::Permutation::ConstrType::perm, pa.data()), P2(k, Adjacency::Permutation::ConstrType::perm, pb.data());
                 P1.concat(P2);
-                bool id = true; for(Index i = 0; i < k; ++i) if(P1.get_perm_pos()[i] != i) id = false;
-                Adjacency::Permutation P3(k, Adjacency::Permutation::ConstrType::perm, iv.data()), P4(k, Adjacency::Permutation::ConstrType::perm, pv.data());
-                P3.concat(P4);
-                for(Index i = 0; i < k; ++i) if(P3.get_perm_pos()[i] != i) id = false;
-                if(!id) fail_once("Permutation::concat of a permutation with its inverse is not the identity", "");
+                bool good = true; for(Index i = 0; i < k; ++i) if(P1.get_perm_pos()[i] != pb[pa[i]]) good = false;
+                // the swap array must describe the same permutation: applying it to an array equals gathering with perm_pos
+                std::vector<Index> arr(k), want(k); for(Index i = 0; i < k; ++i) arr[i] = 10 + i; for(Index i = 0; i < k; ++i) want[i] = arr[pb[pa[i]]];
+                P1.apply(arr.data());
+                if(arr != want) good = false;
+                if(!good) fail_once("Permutation::concat differs from the composition of the two permutations", "");
               }
               c.count("permutation_concat_checks");
             }
@@ -1691,6 +1726,7 @@ int main(int argc, char** argv)
     "excluded (asserted preconditions): Banded::convert(CSR) and generic convert(MT_) of an entry-free matrix, CSCR(csr,mirror) with an empty mirror; operator()(i,j) is not called on entry-free CSR/BCSR (no arrays)",
     "values after clone(Layout/Allocate) and ctor(layout) are undefined by contract: only layout, dimensions and aliasing are compared, the state is not expanded",
     "Banded padding entries outside the matrix are ignored",
+    "not exercised (out of the property's scope, covered elsewhere or dead): serialisation / file I/O / checkpoint members of the containers (C05), linear algebra members (axpy, scale, apply, norms, scale_rows/cols, extract_diag, row/column bandwidth and radius: C01/C03), Scatter/GatherAxpy helper classes (C16), operator<<, Container::bytes(), SerialConfig; DenseMatrix::set_line/set_line_reverse/get_length_of_line are unreachable because the generic convert(MT_) does not compile for DenseMatrix",
     "operations on entry-free matrices are first executed in a forked child so that a crash is reported with a specific key instead of killing the search"
   };
   spec.max_fail_per_worker = 100000;
